@@ -4,6 +4,7 @@ import (
 	"bytes"
 	"encoding/json"
 	"fmt"
+	"math"
 	"math/rand"
 	"sort"
 	"strconv"
@@ -63,6 +64,10 @@ func c03scalar(r *rand.Rand) interface{} {
 		if r.Intn(5) == 0 {
 			// what NewMapJson yields under JsonUseNumber
 			return json.Number([]string{"12", "1.50", "-0", "1e3", "123456789012345678901234567890"}[r.Intn(5)])
+		}
+		if r.Intn(6) == 0 {
+			// the other number types the encoder documents ("%v" formatting), and float64 values at formatting boundaries
+			return []interface{}{42, int64(math.MaxInt64), int32(-7), float32(1.5), float32(0.1), math.Copysign(0, -1), 1e20, 1e21, 9007199254740993.0, int64(math.MinInt64), 123456789012345678.0}[r.Intn(11)]
 		}
 		return []float64{0, 1, -1.5, 1e21, 1e-7, 123456789.125, 3}[r.Intn(7)]
 	default:
@@ -134,8 +139,8 @@ func c03gen(r *rand.Rand, depth int, st *c03stats) interface{} {
 
 func hasJSONNumber(v interface{}) bool {
 	switch t := v.(type) {
-	case json.Number:
-		return true
+	case json.Number, int, int32, int64, float32:
+		return true // (number types a JSON text round trip does not preserve)
 	case map[string]interface{}:
 		for _, e := range t {
 			if hasJSONNumber(e) {
@@ -287,6 +292,10 @@ func (c03) Case(c *core.Ctx) {
 			if x0, e0 := mxj.Map(m).Xml(tag...); e0 == nil {
 				blk := autoBlock(r)
 				m["pad"] = strings.Repeat("p", 1+(blk-len(x0)%blk)%blk)
+				if r.Intn(3) == 0 {
+					// ... or one byte more, the last character being a two-byte rune that straddles the boundary
+					m["pad"] = strings.Repeat("p", (blk-len(x0)%blk)%blk) + "é"
+				}
 				c.Count("shape:output-multiple-of-4096")
 			}
 		}
